@@ -8,8 +8,8 @@ from rules import templates as T
 
 ZEEP_ONLY_CRATES = ("thiserror", "roxmltree", "const_format", "inflector", "env_logger", "zeep_lib", "zeep", "clap", "url",
                     "Inflector")
-RE_DEF = re.compile(r"^\s*(?:pub(?:\([a-z]+\))? )?(?:async )?(struct|type|mod|fn|enum|trait) (\{\}|[A-Za-z_]\w*)")
-RE_IMPL = re.compile(r"^\s*impl(?:<[^>]*>)? (?:[\w:]+ for )?(\{\}|[A-Za-z_]\w*) \{")
+RE_DEF = re.compile(r"^\s*(?:pub(?:\([a-z]+\))? )?(?:async )?(struct|type|mod|fn|enum|trait) " + T.NAME)
+RE_IMPL = re.compile(r"^\s*impl(?:<[^>]*>)? (?:[\w:]+ for )?" + T.NAME + r" \{")
 
 
 def run(ck, F):
@@ -122,10 +122,10 @@ def rule_spelling(ck, F, X):
             continue
         sk = ev.skeleton()
         m = RE_DEF.match(sk)
-        if not m or m.group(2) != "{}":
+        if not m or "{}" not in m.group(2):
             continue
         kind = m.group(1)
-        nf = CE.expand(ev.holes()[0][0])
+        nf = CE.expand(T._name_of(ev, m, 2))
         if kind in ("struct", "type"):
             if nf[0] == "format":
                 env_defs.append((ev, nf))
@@ -204,7 +204,8 @@ def rule_spelling(ck, F, X):
     # (b) module names: definition vs references
     mod_defs = [ev for ev in stream if ev.kind == "emit" and RE_DEF.match(ev.skeleton()) and RE_DEF.match(ev.skeleton()).group(1) == "mod"]
     for ev in mod_defs:
-        nf = ev.holes()[0][0] if ev.holes() else None
+        mm = RE_DEF.match(ev.skeleton())
+        nf = T._name_of(ev, mm, 2) if "{}" in mm.group(2) else None
         if nf is not None and og.nf_str(nf).endswith(".rust_mod_name"):
             ck.ok("R4", "module-def", ev.site, "module name = Namespace.rust_mod_name")
         else:
@@ -236,7 +237,8 @@ def rule_spelling(ck, F, X):
     for ev in stream:
         if ev.kind != "emit" or RE_DEF.match(ev.skeleton()) and RE_DEF.match(ev.skeleton()).group(1) in ("struct",):
             continue
-        for (nf, tr, ty) in ev.holes():
+        regions = [(nf_, "display", "?") for nf_, _txt in T.name_regions(ev) if nf_[0] == "format"]
+        for (nf, tr, ty) in list(ev.holes()) + regions:
             e = CE.expand(nf)
             cands = [e]
             if e[0] == "payload":
@@ -306,15 +308,15 @@ def rule_injectivity(ck, F, X):
         mi = RE_IMPL.match(sk)
         star_iters = T.stars(ev.ctx)
         if mi and not m:
-            if mi.group(1) == "{}" and ev.holes():
-                scopes.append(("impl", ev.holes()[0][0], ev.ctx))
+            if "{}" in mi.group(1) and ev.holes():
+                scopes.append(("impl", T._name_of(ev, mi, 1), ev.ctx))
             continue
         if not m:
             continue
         kind = m.group(1)
-        if m.group(2) != "{}":
+        if "{}" not in m.group(2):
             continue
-        name = ev.holes()[0][0]
+        name = T._name_of(ev, m, 2)
         if kind == "mod":
             scopes.append(("mod", name, ev.ctx))
         if not star_iters:
